@@ -80,78 +80,6 @@ func builtinCall(ins ssa.Instruction, name string) (*ssa.CallCommon, bool) {
 	return ci.Common(), true
 }
 
-type flushShape struct {
-	F       *ssa.Function
-	gos     []*ssa.Go                    // all go statements in F and nested goroutine bodies
-	bodies  map[*ssa.Go]*ssa.Function    // body started by each go
-	spawner map[*ssa.Function]*ssa.Go    // go that starts a body
-	wait    ssa.CallInstruction          // wg.Wait in F
-	W       ssa.Value                    // origin of the WaitGroup
-}
-
-func findFlush(c *Ctx) *flushShape {
-	mk := c.MustFunc("(*Mast).MakeRoot")
-	if mk == nil {
-		return nil
-	}
-	reach := c.Facts.Reach(mk)
-	var cands []*ssa.Function
-	for _, fn := range c.P.Funcs {
-		if !reach[fn] || fn.Parent() != nil {
-			continue
-		}
-		for _, b := range fn.Blocks {
-			for _, ins := range b.Instrs {
-				if _, ok := ins.(*ssa.Go); ok {
-					cands = append(cands, fn)
-				}
-			}
-		}
-	}
-	if len(cands) == 0 {
-		c.AnchorMissing("function with go statements reachable from MakeRoot")
-		return nil
-	}
-	F := cands[0]
-	for _, x := range cands {
-		if x != F {
-			c.Undecided(x, c.P.Pos(x.Pos()), "second goroutine-spawning function", "more than one function reachable from MakeRoot starts goroutines; the barrier rule models one")
-		}
-	}
-	sh := &flushShape{F: F, bodies: map[*ssa.Go]*ssa.Function{}, spawner: map[*ssa.Function]*ssa.Go{}}
-	var collect func(fn *ssa.Function)
-	collect = func(fn *ssa.Function) {
-		for _, b := range fn.Blocks {
-			for _, ins := range b.Instrs {
-				if g, ok := ins.(*ssa.Go); ok {
-					sh.gos = append(sh.gos, g)
-					if body := goBody(g); body != nil && body.Blocks != nil {
-						if _, seen := sh.spawner[body]; !seen {
-							sh.bodies[g] = body
-							sh.spawner[body] = g
-							collect(body)
-						}
-					}
-				}
-			}
-		}
-	}
-	collect(F)
-	for _, ci := range CallsOf(F) {
-		if w, ok := syncCall(ci, "WaitGroup", "Wait"); ok {
-			if sh.wait != nil {
-				c.Note("several Wait calls in %s; using the first", ir.FuncName(F))
-				continue
-			}
-			sh.wait = ci
-			sh.W = ir.Origin(w)
-		}
-	}
-	return sh
-}
-
-func (sh *flushShape) isW(v ssa.Value) bool { return sh.W != nil && ir.Origin(v) == sh.W }
-
 // sameValue: v is r, or a load that the last store in the same block set to r.
 func sameValue(v, r ssa.Value) bool {
 	if v == r {
@@ -179,344 +107,6 @@ func nilFactOn(b *ssa.BasicBlock, r ssa.Value, wantNil bool) bool {
 		}
 	}
 	return false
-}
-
-// ---- BARRIER -------------------------------------------------------------------
-
-func runBARRIER(c *Ctx) {
-	P := c.P
-	sh := findFlush(c)
-	if sh == nil {
-		return
-	}
-	F := sh.F
-	if sh.wait == nil {
-		c.Violation(F, P.Pos(F.Pos()), "no wg.Wait", "the function that starts the store goroutines never waits for them: MakeRoot can return before the writes have completed")
-		return
-	}
-	// (1) Add before each go
-	usedAdd := map[ssa.Instruction]bool{}
-	for _, g := range sh.gos {
-		fn := g.Parent()
-		var found ssa.CallInstruction
-		for _, ci := range CallsOf(fn) {
-			w, ok := syncCall(ci, "WaitGroup", "Add")
-			if !ok || !sh.isW(w) || usedAdd[ci] || !ir.Before(ci, g) {
-				continue
-			}
-			if k, isK := ir.ConstInt(ci.Common().Args[1]); !isK || k < 1 {
-				continue
-			}
-			found = ci
-		}
-		body := "?"
-		if b := sh.bodies[g]; b != nil {
-			body = ir.FuncName(b)
-		}
-		if found == nil {
-			c.Violation(fn, P.InstrPos(g), "go "+body+" without preceding wg.Add",
-				"a goroutine is started without a wg.Add that happens before it in the spawning goroutine: Wait can return before this goroutine's Done")
-		} else {
-			usedAdd[found] = true
-			c.OK(P.InstrPos(g), "(1) go "+body+" in "+ir.FuncName(fn), "dominated by its own wg.Add at "+P.InstrPos(found), false)
-		}
-	}
-	// (2) Done on every exit of each body
-	for g, body := range sh.bodies {
-		_ = g
-		isDone := func(ins ssa.Instruction) bool {
-			ci, ok := ins.(ssa.CallInstruction)
-			if !ok {
-				return false
-			}
-			w, ok := syncCall(ci, "WaitGroup", "Done")
-			return ok && sh.isW(w)
-		}
-		rets := ir.Returns(body)
-		nret := 0
-		for _, r := range rets {
-			if len(r.Block().Preds) == 0 && r.Block().Index != 0 {
-				continue // recover block
-			}
-			nret++
-			if ir.MustPass(r, isDone) {
-				c.OK(P.InstrPos(r), "(2) exit of "+ir.FuncName(body), "every path to this return runs (or has deferred) wg.Done", false)
-			} else {
-				c.Violation(body, P.InstrPos(r), "exit without wg.Done", "a path through the goroutine body returns without wg.Done: flush's Wait never returns (MakeRoot hangs)")
-			}
-		}
-		if nret == 0 {
-			c.Violation(body, P.Pos(body.Pos()), "goroutine never exits", "the goroutine body has no return: wg.Done is never called and Wait never returns")
-		}
-	}
-	// (3) success returns after the first go are dominated by Wait
-	ei := ir.ErrorResultIndex(F.Signature)
-	var goInF []*ssa.Go
-	for _, g := range sh.gos {
-		if g.Parent() == F {
-			goInF = append(goInF, g)
-		}
-	}
-	var successRets []*ssa.Return
-	for _, r := range ir.Returns(F) {
-		afterGo := false
-		for _, g := range goInF {
-			if ir.InstrReaches(g, r) {
-				afterGo = true
-			}
-		}
-		if !afterGo {
-			continue
-		}
-		if ei >= 0 && ir.IsNilConst(r.Results[ei]) {
-			successRets = append(successRets, r)
-			if ir.Before(sh.wait, r) {
-				c.OK(P.InstrPos(r), "(3) success return of "+ir.FuncName(F), "dominated by wg.Wait at "+P.InstrPos(sh.wait), false)
-			} else {
-				c.Violation(F, P.InstrPos(r), "success return not dominated by wg.Wait", "flush can report success before the concurrent Store calls have completed")
-			}
-		} else if !ir.Before(sh.wait, r) {
-			c.Note("error return at %s after the dispatcher was started is not preceded by close+Wait: the dispatcher goroutine leaks (not a property violation)", P.InstrPos(r))
-		}
-	}
-	if len(successRets) == 0 {
-		c.Undecided(F, P.Pos(F.Pos()), "no success return after go", "flush has no nil-error return after starting the writers")
-	}
-	// (4) close(queue): after the last enqueue, before Wait
-	var queue ssa.Value // origin of the channel the dispatcher receives work from
-	for _, body := range sh.bodies {
-		for _, b := range body.Blocks {
-			for _, ins := range b.Instrs {
-				if u, ok := ins.(*ssa.UnOp); ok && u.Op == token.ARROW {
-					if ch, ok := u.X.Type().Underlying().(*types.Chan); ok {
-						if _, isFn := ch.Elem().Underlying().(*types.Signature); isFn {
-							queue = ir.Origin(u.X)
-						}
-					}
-				}
-			}
-		}
-	}
-	if queue == nil {
-		c.Undecided(F, P.Pos(F.Pos()), "work queue", "cannot find the channel of closures the dispatcher receives from")
-	} else {
-		var closeIns ssa.Instruction
-		for _, b := range F.Blocks {
-			for _, ins := range b.Instrs {
-				if com, ok := builtinCall(ins, "close"); ok && ir.Origin(com.Args[0]) == queue {
-					closeIns = ins
-				}
-			}
-		}
-		if closeIns == nil {
-			c.Violation(F, P.InstrPos(sh.wait), "queue never closed", "the dispatcher's queue is not closed before Wait: the dispatcher never terminates and Wait deadlocks")
-		} else {
-			if ir.Before(closeIns, sh.wait) {
-				c.OK(P.InstrPos(closeIns), "(4) close(queue) before Wait", "close dominates Wait", false)
-			} else {
-				c.Violation(F, P.InstrPos(closeIns), "close(queue) not before wg.Wait", "Wait is reached with the queue still open: the dispatcher blocks on receive and Wait deadlocks")
-			}
-			for _, ci := range CallsOf(F) {
-				if ci == closeIns {
-					continue
-				}
-				for _, a := range ci.Common().Args {
-					if ir.Origin(a) == queue {
-						if _, isB := ci.Common().Value.(*ssa.Builtin); isB {
-							continue
-						}
-						if ir.Before(ci, closeIns) && !ir.InstrReaches(closeIns, ci) {
-							c.OK(P.InstrPos(ci), "(4) enqueueing call precedes close(queue)", "call dominates close and cannot follow it", false)
-						} else {
-							c.Violation(F, P.InstrPos(ci), "enqueue after close(queue)", "a call that sends on the queue may run after the queue was closed (send on closed channel panics) or the close does not wait for it")
-						}
-					}
-				}
-			}
-		}
-	}
-	// error cell E: a local of type error of F that a goroutine body stores into
-	var E *ssa.Alloc
-	for _, b := range F.Blocks {
-		for _, ins := range b.Instrs {
-			a, ok := ins.(*ssa.Alloc)
-			if !ok || !ir.IsErrorType(a.Type().Underlying().(*types.Pointer).Elem()) {
-				continue
-			}
-			sts, _ := ir.AllCellStores(a)
-			for _, st := range sts {
-				if st.Parent() != F && sh.spawner[st.Parent()] != nil {
-					E = a
-				}
-			}
-		}
-	}
-	if E == nil {
-		c.Violation(F, P.Pos(F.Pos()), "no error cell", "no goroutine records a store error in a variable of flush: a failed Persist.Store cannot be surfaced")
-		return
-	}
-	// (5) cell read after Wait, non-nil edge returns error, dominating success
-	for _, r := range successRets {
-		ok := false
-		for _, f := range ir.FactsAt(r.Block()) {
-			tv, tnn, isNil := ir.NilTest(f.Cond)
-			if !isNil || f.Truth == tnn {
-				continue
-			}
-			ld, isLd := tv.(*ssa.UnOp)
-			if isLd && ir.CellOf(ld) == E && ir.Before(sh.wait, ld) {
-				ok = true
-			}
-		}
-		if ok {
-			c.OK(P.InstrPos(r), "(5) success return tests the error cell after Wait", "dominated by `"+E.Comment+" == nil` read after Wait", false)
-		} else {
-			c.Violation(F, P.InstrPos(r), "success not conditioned on the store-error cell", "flush returns success without (after Wait) checking the error recorded by the writers: a failed Persist.Store is not reported")
-		}
-	}
-	// (7a) accesses of E in F are after Wait (or before the first go)
-	for _, b := range F.Blocks {
-		for _, ins := range b.Instrs {
-			var addr ssa.Value
-			switch x := ins.(type) {
-			case *ssa.UnOp:
-				if x.Op == token.MUL {
-					addr = x.X
-				}
-			case *ssa.Store:
-				addr = x.Addr
-			}
-			if addr != E {
-				continue
-			}
-			before := true
-			for _, g := range goInF {
-				if ir.InstrReaches(g, ins) {
-					before = false
-				}
-			}
-			if before || ir.Before(sh.wait, ins) {
-				c.OK(P.InstrPos(ins), "(7) access of "+E.Comment+" in "+ir.FuncName(F), "after Wait / before the first go", false)
-			} else {
-				c.Violation(F, P.InstrPos(ins), "unsynchronised access of the error cell in flush", "the error cell is read or written while writers may still be running, without the mutex")
-			}
-		}
-	}
-	// (6)+(7b) in goroutine bodies
-	recorded := false
-	for _, body := range sh.bodies {
-		for _, b := range body.Blocks {
-			for _, ins := range b.Instrs {
-				var addr ssa.Value
-				switch x := ins.(type) {
-				case *ssa.UnOp:
-					if x.Op == token.MUL {
-						addr = x.X
-					}
-				case *ssa.Store:
-					addr = x.Addr
-				}
-				if addr == nil || ir.CellOf(addr) != E {
-					continue
-				}
-				held := ir.FlowHeld(ins,
-					func(i ssa.Instruction) bool {
-						ci, ok := i.(*ssa.Call)
-						if !ok {
-							return false
-						}
-						_, ok = syncCall(ci, "Mutex", "Lock")
-						return ok
-					},
-					func(i ssa.Instruction) bool {
-						ci, ok := i.(*ssa.Call)
-						if !ok {
-							return false
-						}
-						_, ok = syncCall(ci, "Mutex", "Unlock")
-						return ok
-					})
-				if held {
-					c.OK(P.InstrPos(ins), "(7) access of "+E.Comment+" in "+ir.FuncName(body), "mutex held on every path", false)
-				} else {
-					c.Violation(body, P.InstrPos(ins), "error cell accessed without the mutex", "concurrent writers read/write the first-error variable without holding the lock (data race; an error can be lost)")
-				}
-				if st, ok := ins.(*ssa.Store); ok {
-					// value stored is the result of calling the queued closure, on its non-nil edge
-					if call, isCall := ir.Origin(st.Val).(*ssa.Call); isCall && nilFactOn(b, st.Val, false) {
-						extra := false
-						for _, f := range ir.FactsAt(b) {
-							tv, _, isNil := ir.NilTest(f.Cond)
-							if isNil && (sameValue(tv, st.Val) || ir.CellOf(tv) == E) {
-								continue
-							}
-							if isNil {
-								continue
-							}
-							extra = true
-						}
-						if !extra {
-							recorded = true
-							c.OK(P.InstrPos(st), "(6) worker records the queued closure's error", "store of "+call.Name()+"'s non-nil result into "+E.Comment, false)
-						}
-					}
-				}
-			}
-		}
-	}
-	if !recorded {
-		c.Violation(F, P.Pos(E.Pos()), "worker never records a store error", "no goroutine stores the non-nil result of the queued closure into the error cell: Persist.Store failures vanish and MakeRoot reports success")
-	}
-	// (8) semaphore
-	for g, body := range sh.bodies {
-		sp := g.Parent()
-		if sp == F {
-			continue
-		}
-		// receives in the spawner before this go, on a channel other than the queue
-		for _, b := range sp.Blocks {
-			for _, ins := range b.Instrs {
-				u, ok := ins.(*ssa.UnOp)
-				if !ok || u.Op != token.ARROW || !ir.Before(u, g) {
-					continue
-				}
-				ch := ir.Origin(u.X)
-				if ch == queue {
-					continue
-				}
-				sends := func(i ssa.Instruction) bool {
-					switch y := i.(type) {
-					case *ssa.Send:
-						return ir.Origin(y.Chan) == ch
-					case *ssa.Defer:
-						if fn := y.Call.StaticCallee(); fn != nil {
-							for _, bb := range fn.Blocks {
-								for _, ii := range bb.Instrs {
-									if s, ok := ii.(*ssa.Send); ok && ir.Origin(s.Chan) == ch {
-										return true
-									}
-								}
-							}
-						}
-					}
-					return false
-				}
-				allOK := true
-				for _, r := range ir.Returns(body) {
-					if len(r.Block().Preds) == 0 && r.Block().Index != 0 {
-						continue
-					}
-					if !ir.MustPass(r, sends) {
-						allOK = false
-						c.Violation(body, P.InstrPos(r), "semaphore slot not released", "the worker exits on some path without returning the slot it was given: after 40 writes the dispatcher blocks forever and MakeRoot hangs")
-					}
-				}
-				if allOK {
-					c.OK(P.InstrPos(u), "(8) semaphore acquire before go "+ir.FuncName(body), "released on every exit of the worker", false)
-				}
-			}
-		}
-	}
 }
 
 // ---- ERRPROP (flush part) -------------------------------------------------------
@@ -801,10 +391,8 @@ func runROOTSWAP(c *Ctx) {
 			for _, f := range ir.FactsAt(st.Block()) {
 				tv, tnn, isNil := ir.NilTest(f.Cond)
 				if isNil && f.Truth != tnn {
-					if ld, ok := tv.(*ssa.UnOp); ok {
-						if a := ir.CellOf(ld); a != nil && ir.IsErrorType(a.Type().Underlying().(*types.Pointer).Elem()) {
-							cellOK = true
-						}
+					if ek := sh.errKey(); ek != "" && sh.cellAfterWait(tv, func(a ssa.Value) bool { return objKey(a) == ek }) {
+						cellOK = true
 					}
 				}
 			}
